@@ -27,6 +27,7 @@ import (
 
 	"github.com/kubewharf/kubebrain/pkg/backend/common"
 	"github.com/kubewharf/kubebrain/pkg/storage"
+	"github.com/kubewharf/kubebrain/pkg/verifhook"
 )
 
 // Create implements Backend interface
@@ -266,6 +267,7 @@ func (b *backend) update(ctx context.Context, oldRevision uint64, key []byte, va
 
 func (b *backend) notify(ctx context.Context,
 	key []byte, val []byte, revision, preRevision uint64, valid bool, eventType proto.Event_EventType, err error) {
+	verifhook.Yield("notify", revision, boolToUint64(valid))
 	if revision == 0 {
 		b.metricCli.EmitCounter("watch.event.buffer.invalid", 1)
 		// todo: panic or not ?
